@@ -10,8 +10,11 @@ pub struct TlWrap;
 
 #[contractimpl]
 impl TlWrap {
-    pub fn __constructor(e: &Env, min_delay: u32) {
-        set_min_delay(e, min_delay);
+    /// `None`: a timelock whose minimum delay was never set
+    pub fn __constructor(e: &Env, min_delay: Option<u32>) {
+        if let Some(d) = min_delay {
+            set_min_delay(e, d);
+        }
     }
     pub fn schedule(e: &Env, target: Address, function: Symbol, args: Vec<Val>, predecessor: BytesN<32>, salt: BytesN<32>, delay: u32) -> BytesN<32> {
         schedule_operation(e, &Operation { target, function, args, predecessor, salt }, delay)
